@@ -262,6 +262,30 @@ pub fn dir_case(rng: &mut Rng, cfg: &str, o: &DirOpts, out: &mut Vec<String>) {
                 }
             }
         }
+        if o.lag {
+            // readers 10/11 keep what they have read for an hour; 10 is re-created every third epoch and warmed with
+            // every kind of request, 11 lives for the whole history.  Judged by the oracle alone.
+            if step % 3 == 0 {
+                out.push("o.lagc.new 10".into());
+            }
+            if step == 0 {
+                out.push("o.lagc.new 11".into());
+            }
+            for r in [10usize, 11] {
+                out.push(format!("o.lagc.epochhash {r}"));
+                for u in pool.iter().take(4) {
+                    let hu = hex_or_dash(u);
+                    out.push(format!("o.lagc.lookup {r} {hu}"));
+                    out.push(format!("o.lagc.history {r} {hu} complete"));
+                    out.push(format!("o.lagc.history {r} {hu} recent:2"));
+                }
+                if epoch >= 1 {
+                    out.push(format!("o.lagc.audit {r} 0 {}", epoch));
+                    out.push(format!("o.lagc.audit {r} {} {}", epoch - 1, epoch));
+                }
+                out.push(format!("o.lagc.epochhash {r}"));
+            }
+        }
         if o.lookup_adv && (step % 2 == 0 || step + 1 == o.epochs) {
             for (i, u) in pool.iter().enumerate() {
                 let hu = hex_or_dash(u);
